@@ -115,6 +115,11 @@ type history struct {
 	SpawnAt int
 	// GateAt: Stalled histories: file block number the input stalls in front of (0 = 3).
 	GateAt int
+	// TempErr: Stalled histories: once the stall ends, the stalled Read and every later
+	// Read fail with an error whose Temporary() and Timeout() are true (what a
+	// connection answers after its read deadline was moved into the past to stop
+	// the scan). Such an error must not keep the reader going.
+	TempErr bool
 	// Twin: a second scanner with its own reader is created on the SAME context and
 	// scanned in lock step. Close of the first must leave it alone (it delivers the
 	// complete file, Err nil); a cancellation stops both.
@@ -165,11 +170,21 @@ func (h history) name() string {
 	if h.GateAt > 0 {
 		d += fmt.Sprintf(" stall-before-file-block-%d", h.GateAt)
 	}
+	if h.TempErr {
+		d += " then-temporary-timeout-errors-forever"
+	}
 	if h.Twin {
 		d += " twin-scanner-on-the-same-context"
 	}
 	return fmt.Sprintf("%s%s procs=%d scans=%d headerAt=%d stop=%s post=%s", h.Format, d, h.Procs, h.K, h.HeaderAt, stopNames[h.Stop], h.Post)
 }
+
+// tempTimeout is the error of a read whose deadline has passed (net.Error style).
+type tempTimeout struct{}
+
+func (tempTimeout) Error() string   { return "c07: i/o timeout (temporary)" }
+func (tempTimeout) Temporary() bool { return true }
+func (tempTimeout) Timeout() bool   { return true }
 
 const pbfBlocks = 6
 
@@ -297,6 +312,9 @@ func scenario(h history, bound int) vexplore.Scenario {
 						rd.Gate, rd.GateAt = vsched.MakeChan[struct{}](0), 3
 						if h.GateAt > 0 {
 							rd.GateAt = h.GateAt
+						}
+						if h.TempErr {
+							rd.AfterGate = tempTimeout{}
 						}
 					}
 					ps = osmpbf.New(ctx, src, h.Procs)
